@@ -45,3 +45,15 @@ func vClockAt(name string, k int) int64
 func vWallReads() int
 func vEventCount(prefix string) int
 func vPanicked(f func()) bool
+
+func vBlob(name string) []byte
+func vDecodeOK(b []byte) bool
+func vInflatedLen(b []byte) int64
+func vInflateErr(b []byte) bool
+func vInflatedDecodeOK(b []byte) bool
+func vBytesEq(a, b []byte) bool
+func vIsInflateOf(out, in []byte) bool
+func vMaterialised() int64
+func vReadAllCalls() int
+func vReadAllUnlimited() bool
+func vMemMark()
